@@ -17,7 +17,27 @@ import (
 
 func init() { Registry["C05"] = runC05 }
 
-var markerRe = regexp.MustCompile(`zq[a-z]{2}[0-9]{6}`)
+var markerRe = regexp.MustCompile(`zq[a-z]{2}[0-9]{6}|\f[\t\n]{20}\f|  [\t\n]{20}  `)
+
+// wsMarker: a unique marker made of white space only: a delimiter (form feed, or two spaces for
+// even k), the index in 20 binary digits written as tab / newline, the delimiter again.
+func wsMarker(k int) string {
+	d := "\f"
+	if k%2 == 0 {
+		d = "  "
+	}
+	b := []byte(d)
+	for i := 19; i >= 0; i-- {
+		if k>>uint(i)&1 == 1 {
+			b = append(b, '\t')
+		} else {
+			b = append(b, '\n')
+		}
+	}
+	return string(append(b, d...))
+}
+
+func isWsMarker(m string) bool { return m != "" && (m[0] == '\f' || m[0] == ' ') }
 
 type markerGen struct{ n int }
 
@@ -38,8 +58,14 @@ func scriptStyleInput(cs *core.Case, env *Env) string {
 			continue
 		}
 		name := gen.Pick(r, []string{"script", "style", "SCRIPT", "Style", "sCrIpT", "STYLE", "scrİpt", "ſcript", "ſtyle", "sKript", "script\x00", "scripts", "xscript", "style2"})
-		attrs := gen.Pick(r, []string{"", "", " type=\"text/javascript\"", " src=http://evil.example/x.js", " x", " id=a class=b", "\n", "/x", " type=text/css media=all", " href=x"})
+		attrs := gen.Pick(r, []string{"", "", " type=\"text/javascript\"", " src=http://evil.example/x.js", " x", " id=a class=b", "\n", "/x", " type=text/css media=all", " href=x",
+			" type=\"application/json\"", " type=application/ld+json", " type=module", " type=\"text/template\"", " type=text/plain", " type=\"\"", " TYPE=Application/JSON id=data", " type=importmap", " type=speculationrules",
+			" nomodule", " async defer", " language=javascript", " nonce=abc", " integrity=sha384-x crossorigin=anonymous", " media=print", " scoped", " title=alt", " type=\"text/x-handlebars-template\" id=t", " src=data.json type=application/json", " x=\"application/json\""})
 		body := gen.Pick(r, []string{"alert(1)", "body{color:red}", "<b>x</b>", "</b>", "<!-- x -->", "</scr", "</script", "</style", "<script>", "x</SCRIPT >y", "&lt;&amp;", "]]>", "\x00", "", "var a = '</style>';", "@import 'x';"}) + " " + mg.next(r)
+		if r.Intn(6) == 0 { // a body made of white space only is a body like any other
+			mg.n++
+			body = gen.Pick(r, []string{"", " ", "\n"}) + wsMarker(mg.n*977+r.Intn(900))
+		}
 		switch r.Intn(9) {
 		case 0: // self-closing
 			b.WriteString("<" + name + attrs + "/>" + mg.next(r))
@@ -139,6 +165,19 @@ func runC05(ctx *core.Ctx) {
 			{K: spec.KAllowAttrs, Attrs: []string{"src", "type", "x"}, Scope: "els", Names: []string{"script", "style"}}, {K: spec.KKeep, Names: []string{"script", "style"}}},
 		{{K: spec.KNew}, {K: spec.KAllowNoAttrs, Scope: "match", ElRe: `.*`}, {K: spec.KAllowAttrs, Attrs: []string{"src", "x"}, Scope: "match", ElRe: `.*`}, {K: spec.KKeep, Names: []string{"script", "style"}},
 			{K: spec.KComments}, {K: spec.KSwitch, Names: []string{spec.SwAddSpaces}, B: true}},
+	}
+	for wi, ops := range worst {
+		env := NewEnv(ops)
+		ctx.Run(fmt.Sprintf("forms:worst%d", wi), ctx.N(300, 4000), func(cs *core.Case) {
+			lc := core.LocalCounts{}
+			for i := 0; i < 100; i++ {
+				ob := observe(env, scriptStyleInput(cs, env), i)
+				cs.Eval()
+				lc["worst_policy_form_inputs"]++
+				c05Judge(cs, ob, lc)
+			}
+			cs.Flush(lc)
+		})
 	}
 	L := ctx.N(4, 5)
 	total := gen.PieceCount(L)
